@@ -125,6 +125,10 @@ def kron_cases(tier, seed):
             add(fs, forms=lean, compose=False)
         for fs in itertools.product(_alphabet([(2, 2), (2, 3), (3, 2), (3, 3)], "dl"), repeat=4):
             add(fs, forms=["v", "m2F", "I"], compose=False)
+        # all-square 4-factor tuples: the column-major linear-operator sweep with four factors
+        for fs in itertools.product(_alphabet([(1, 1), (2, 2), (3, 3)], "drl"), repeat=4):
+            if not all(f[0] <= 2 for f in fs) and not all(f[2] in "dl" and f[0] >= 2 for f in fs):
+                add(fs, forms=["v", "m2F", "m3C", "I"], compose=False)
     # nested pyiga operators as factors (null, identity, diagonal, subspace, block) next to dense / scipy operands
     nest = []
     for k in "dlzb":
@@ -502,7 +506,7 @@ def run(ctx):
             out.part("kron", **{"branch_" + stats["branch"]: 1})
         if "worst" in stats:
             worst[part] = max(worst.get(part, 0.0), float(stats["worst"]))
-        if part not in sampled and stats.get("nontrivial") and not probs:
+        if part not in sampled and stats.get("nontrivial"):
             sampled.add(part)
             out.sample({k: v for k, v in case.items() if k not in ("modes",)}, limit=8)
         if probs:
